@@ -314,6 +314,20 @@ func (p *printer) print(sb *strings.Builder, t *Term) {
 		return
 	}
 	op := t.Op
+	if p.mode == "str" && op == "s.byte" && len(t.Args) == 2 {
+		sb.WriteString("(str.to_code (str.at ")
+		p.print(sb, t.Args[0])
+		sb.WriteByte(' ')
+		p.print(sb, t.Args[1])
+		sb.WriteString("))")
+		return
+	}
+	if p.mode == "str" && op == "bytestr" && len(t.Args) == 1 {
+		sb.WriteString("(str.from_code ")
+		p.print(sb, t.Args[0])
+		sb.WriteString(")")
+		return
+	}
 	if strings.HasPrefix(op, "s.") {
 		if p.mode == "str" {
 			if n, ok := strNative[op]; ok {
